@@ -15,6 +15,7 @@ import (
 	"io"
 	"os"
 	"runtime"
+	"runtime/debug"
 	"strings"
 	"sync"
 	"sync/atomic"
@@ -23,6 +24,7 @@ import (
 
 	"github.com/tetratelabs/wazero"
 	"github.com/tetratelabs/wazero/api"
+	"github.com/tetratelabs/wazero/experimental"
 	"github.com/tetratelabs/wazero/experimental/sock"
 	"github.com/tetratelabs/wazero/imports/wasi_snapshot_preview1"
 	wsys "github.com/tetratelabs/wazero/sys"
@@ -292,7 +294,27 @@ var guestBin = func() []byte {
 type guestRT struct {
 	rt   wazero.Runtime
 	code wazero.CompiledModule
+	buf  []byte // the observation guest's single memory page, reused by this worker (see reuseMem)
 }
+
+// reuseMem is a per-worker experimental.MemoryAllocator that hands every observation guest the same
+// 64 KiB buffer and clears only the part the guest uses (argument/result areas below 8 KiB). Allocating
+// and zeroing a fresh page per instantiation made the exploration allocator-bound (2-3 busy cores of 16).
+// Memory contents are not part of what this check observes beyond the cleared area.
+type reuseMem struct{ g *guestRT }
+
+func (a reuseMem) Allocate(cap, max uint64) experimental.LinearMemory { return a }
+func (a reuseMem) Reallocate(size uint64) []byte {
+	if a.g.buf == nil {
+		a.g.buf = make([]byte, 65536)
+	}
+	if size > uint64(len(a.g.buf)) {
+		return nil
+	}
+	clear(a.g.buf[:8192])
+	return a.g.buf[:size]
+}
+func (a reuseMem) Free() {}
 
 func newGuestRT() *guestRT {
 	ctx := context.Background()
@@ -304,7 +326,7 @@ func newGuestRT() *guestRT {
 	if err != nil {
 		fw.Fatalf("guest module rejected: %v", err)
 	}
-	return &guestRT{rt, code}
+	return &guestRT{rt: rt, code: code}
 }
 
 type observation struct {
@@ -321,6 +343,7 @@ func (o observation) String() string {
 }
 
 func (g *guestRT) observe(ctx context.Context, mc wazero.ModuleConfig) (o observation) {
+	ctx = experimental.WithMemoryAllocator(ctx, reuseMem{g})
 	mod, err := g.rt.InstantiateModule(ctx, g.code, mc)
 	if err != nil {
 		o.Err = err.Error()
@@ -658,6 +681,9 @@ func (e *explorer) exploreAll(hostA, hostB string) {
 
 func main() {
 	run := fw.Start("C19", "model_checking")
+	// The live heap is tiny while the allocation rate is high: with the default GOGC the collector runs
+	// thousands of cycles per second and its stop-the-world phases leave most cores idle.
+	debug.SetGCPercent(4000)
 	hostA, _ := os.MkdirTemp("", "c19a")
 	hostB, _ := os.MkdirTemp("", "c19b")
 	defer os.RemoveAll(hostA)
